@@ -324,3 +324,32 @@ Print Assumptions C07_tie_aw_new_shape.
 Print Assumptions C07_tie_generators_are_local.
 Print Assumptions C07_tie_enc_flush_only_forwards.
 Print Assumptions C07_tie_enc_inner_writes_are_cipher_outputs.
+
+(* ---------- Tie A level 1, work package encT: EncryptionReaderConfig::load_persistent translated from the source (candidate
+   loop: all private keys in order, the first that unwraps wins, none -> PrivateKeyNotFound, no candidate -> PrivateKeyNotSet)
+   IS Ecies.load_persistent (theories/SrcTie3EncKeys.v); the two C07 key theorems carried to the translated function ---------- *)
+From MLA Require SrcTie3EncKeys.
+Check SrcTie3EncKeys.load_persistent_src.
+Theorem C07_tie_load_persistent_src : ltac:(let t := type of SrcTie3EncKeys.load_persistent_src in exact t).
+Proof. exact SrcTie3EncKeys.load_persistent_src. Qed.
+Print Assumptions C07_tie_load_persistent_src.
+Check SrcTie3EncKeys.load_persistent_ok_iff_src.
+Theorem C07_tie_load_persistent_ok_iff_src : ltac:(let t := type of SrcTie3EncKeys.load_persistent_ok_iff_src in exact t).
+Proof. exact SrcTie3EncKeys.load_persistent_ok_iff_src. Qed.
+Print Assumptions C07_tie_load_persistent_ok_iff_src.
+Check SrcTie3EncKeys.load_persistent_gen_src.
+Theorem C07_tie_load_persistent_gen_src : ltac:(let t := type of SrcTie3EncKeys.load_persistent_gen_src in exact t).
+Proof. exact SrcTie3EncKeys.load_persistent_gen_src. Qed.
+Print Assumptions C07_tie_load_persistent_gen_src.
+Check SrcTie3EncKeys.load_persistent_keeps_stale_parameters.
+Theorem C07_tie_load_persistent_keeps_stale_parameters : ltac:(let t := type of SrcTie3EncKeys.load_persistent_keeps_stale_parameters in exact t).
+Proof. exact SrcTie3EncKeys.load_persistent_keeps_stale_parameters. Qed.
+Print Assumptions C07_tie_load_persistent_keeps_stale_parameters.
+Check SrcTie3EncKeys.recipient_opens_src.
+Theorem C07_tie_recipient_opens_src : ltac:(let t := type of SrcTie3EncKeys.recipient_opens_src in exact t).
+Proof. exact SrcTie3EncKeys.recipient_opens_src. Qed.
+Print Assumptions C07_tie_recipient_opens_src.
+Check SrcTie3EncKeys.non_recipient_fails_src.
+Theorem C07_tie_non_recipient_fails_src : ltac:(let t := type of SrcTie3EncKeys.non_recipient_fails_src in exact t).
+Proof. exact SrcTie3EncKeys.non_recipient_fails_src. Qed.
+Print Assumptions C07_tie_non_recipient_fails_src.
